@@ -284,3 +284,69 @@ Theorem reserve_then_check_sheds_with_nothing_in_flight_refuted :
    map tres (skipn 80 (snd m')) = [Some RAdmit; Some RAdmit; Some RAdmit] /\
    map tfl (skipn 80 (snd m')) = [0; 0; 0]).
 Proof. vm_compute. repeat split; reflexivity. Qed.
+
+(* ------------------------------------------------------------------ *)
+(* 9. "Do not spin in the completion path" (seeded C02-9): addFlying folds its sample in only if
+      avgFlyingLock.TryLock() succeeds; with the lock busy the sample is dropped.  Every sequential
+      history is bit-identical (nobody else holds the lock).  With the lock explicit - events of the
+      schedule are thread steps and "somebody else takes / gives back the lock" - resolutions that
+      reach their sampling action while the lock is busy lose their sample for good
+      (Props.every_resolution_contributes_one_sample is what the real code guarantees). *)
+Inductive ev := Step (tid : nat) | Busy (b : bool).
+
+Definition resolve_act_try (busy : bool) (sh : state) (t : thread) (start : Z) (pass_now : option Z) : state * thread :=
+  match tpc t with
+  | 1%nat => if busy
+             then (sh, match pass_now with
+                       | Some _ => at_pc t 2
+                       | None => mkT (tcall t) pc_done (tot t) (tavg t) (tmp t) (trt t) (tfl t) (Some RDone)
+                       end)
+             else resolve_act sh t start pass_now
+  | _ => resolve_act sh t start pass_now
+  end.
+
+Definition act_try (busy : bool) (sh : state) (ths : list thread) (t : thread) : state * thread :=
+  match tcall t with
+  | CAllow now cpu1 cpu2 => allow_act sh t now cpu1 cpu2
+  | CPass p now => match promise_of ths p with Some st => resolve_act_try busy sh t st (Some now) | None => (sh, t) end
+  | CFail p => match promise_of ths p with Some st => resolve_act_try busy sh t st None | None => (sh, t) end
+  end.
+
+Definition estep (mb : machine * bool) (e : ev) : machine * bool :=
+  match e with
+  | Busy b => (fst mb, b)
+  | Step tid =>
+    let m := fst mb in
+    match nth_error (snd m) tid with
+    | None => mb
+    | Some t => let '(sh', t') := act_try (snd mb) (fst m) (snd m) t in ((sh', upd_nth tid t' (snd m)), snd mb)
+    end
+  end.
+
+Definition erun (m : machine) (es : list ev) : machine := fst (fold_left estep es (m, false)).
+
+(* the seed's demo: threshold 999 (factor 1 below 1000), default window (capacity estimate 10); 60 requests let
+   in; the lock is taken; 40 of them fail (each sample 59..20 is above 10); the lock is given back; CPU 999,
+   20 in flight: the real code sheds (average >= 19 in every lock order), the variant lets the request in with
+   an average of 0 *)
+Definition tl_cfg : config := mkCfg defaultWindow defaultBuckets 999 true.
+Definition tl_calls : list call :=
+  repeat (CAllow B 0 0) 60 ++ map CFail (seq 0 40) ++ [CAllow (B + ms) 999 999].
+Definition tl_events : list ev :=
+  map Step (concat (map (fun i => repeat i 12) (seq 0 60))) ++ [Busy true]
+  ++ map Step (concat (map (fun i => repeat i 3) (seq 60 40))) ++ [Busy false]
+  ++ map Step (repeat 100%nat 12).
+
+Theorem try_lock_drops_samples_refuted :
+  let m := erun (start tl_cfg B tl_calls) tl_events in
+  option_map tres (nth_error (snd m) 100) = Some (Some RAdmit) /\
+  Qeq (avgFlying (fst m)) 0 /\ flying (fst m) = 21 /\
+  countb is_granted (snd m) - countb has_decremented (snd m) = 21 /\
+  (* the same calls in the real semantics, the 40 resolutions getting the lock in the order that gives the
+     SMALLEST average (large samples first): 20 in flight, average above the capacity estimate 10 -> shed *)
+  (let m' := crun (start tl_cfg B tl_calls)
+                  (concat (map (fun i => repeat i 12) (seq 0 60)) ++ concat (map (fun i => repeat i 3) (seq 60 40))
+                   ++ repeat 100%nat 12) in
+   option_map tres (nth_error (snd m') 100) = Some (Some RShed) /\
+   (10 < avgFlying (fst m'))%Q /\ flying (fst m') = 20).
+Proof. vm_compute. repeat split; reflexivity. Qed.
